@@ -1,1 +1,49 @@
-//! (to be written)
+//! RFC 9297 section 2.1: HTTP/3 Datagram = Quarter Stream ID (varint) || payload.
+
+use crate::varint::{self, Decoded};
+
+pub fn encode(stream_id: u64, payload: &[u8]) -> Option<Vec<u8>> {
+    if stream_id % 4 != 0 {
+        return None;
+    }
+    let mut out = varint::encode(stream_id / 4)?;
+    out.extend_from_slice(payload);
+    Some(out)
+}
+
+#[derive(Debug, Clone, PartialEq, Eq)]
+pub enum DgErr {
+    /// the Quarter Stream ID varint is cut off
+    Truncated,
+    /// quarter stream id > 2^60 - 1 (stream id would exceed 2^62 - 1)
+    IdTooLarge,
+}
+
+/// (stream id, payload)
+pub fn decode(b: &[u8]) -> Result<(u64, &[u8]), DgErr> {
+    match varint::decode(b) {
+        Decoded::Truncated => Err(DgErr::Truncated),
+        Decoded::Ok(q, n) => {
+            if q > (1u64 << 60) - 1 {
+                Err(DgErr::IdTooLarge)
+            } else {
+                Ok((q * 4, &b[n..]))
+            }
+        }
+    }
+}
+
+#[cfg(test)]
+mod tests {
+    use super::*;
+    #[test]
+    fn basics() {
+        assert_eq!(encode(0, b"x").unwrap(), vec![0x00, b'x']);
+        assert_eq!(encode(256, b"").unwrap(), vec![0x40, 0x40]);
+        assert_eq!(encode(5, b""), None);
+        assert_eq!(decode(&[0x40, 0x40, 9]), Ok((256, &[9u8][..])));
+        assert_eq!(decode(&[0x40]), Err(DgErr::Truncated));
+        assert_eq!(decode(&[0xd0, 0, 0, 0, 0, 0, 0, 0]), Err(DgErr::IdTooLarge));
+        assert_eq!(decode(&[0xcf, 0xff, 0xff, 0xff, 0xff, 0xff, 0xff, 0xff]).unwrap().0, (1u64 << 62) - 4);
+    }
+}
